@@ -455,7 +455,34 @@ for _f, _id in ((sib_queue_len, "C19.SIB-queue-len"), (dom_limit, "C19.DOM-limit
                 (dom_world, "C19.DOM-world"), (dom_nested, "C19.DOM-nested")):
     _f.rule_id = _id
 
-RULES = [sib_queue_len, dom_limit, dom_cycle, dom_world, dom_nested]
+def data_cursor(ctx, prog, R="C19.DATA-cursor"):
+    ctx.rule(R, "reconfiguring the limit never moves the recompute heap's scan cursor past pending work: in "
+                "RecomputeHeap::set_max_height_allowed the new height_lower_bound is min(old height_lower_bound, ..) - "
+                "the heap need not be empty at that point (a var may have been set since the last stabilise)")
+    from .effects import writes_of as _w
+    F = ctx.need_fn(R, q.RCH + "set_max_height_allowed")
+    if F is None:
+        return
+    du = DefUse(F)
+    ws = [a for a in _w(prog, "incremental::recompute_heap::RecomputeHeap.height_lower_bound") if a.fn.path == F.path and a.kind == "set"]
+    for a in ws:
+        e = expr(F, a.site.args[1], du)
+        ctx.site(R, F, "bb%d height_lower_bound := %s" % (a.bb, show(e)[:80]))
+        old = lambda x: x[0] == "call" and x[1].endswith("Cell::get") and mentions(
+            x, lambda y: y[0] == "field" and str(y[2][-1]).endswith("height_lower_bound"))
+        if e[0] == "call" and e[1].endswith("cmp::min") and any(old(x) for x in e[2]):
+            ctx.ok(R, "cursor")
+        else:
+            ctx.fail(R, "cursor", "set_max_height_allowed sets the scan cursor to %s: with a node already queued (a var set "
+                     "before the reconfiguration) the cursor can jump past it, the next stabilise pops nothing and a graph "
+                     "of legal height is not computed" % show(e)[:80], fn=F, span=a.span)
+    if not ws:
+        ctx.ok(R, "cursor", "the cursor is not touched")
+
+
+data_cursor.rule_id = "C19.DATA-cursor"
+
+RULES = [sib_queue_len, dom_limit, dom_cycle, dom_world, dom_nested, data_cursor]
 
 # control signature of the bookkeeping effects this property depends on (rules/ctrlsig.py)
 from .ctrlsig import make_rule as _ctrl_rule  # noqa: E402
